@@ -48,7 +48,7 @@ var lockableKinds = []string{wallet.WalletTypeDeterministic, wallet.WalletTypeBi
 
 type fileEntry struct {
 	Address string
-	Secret  string // as written in the file (hex)
+	Secret  string // as written in the file (hex, or wallet import format in a bitcoin wallet)
 }
 
 type fileModel struct {
@@ -101,8 +101,8 @@ func readModel(data []byte) (*fileModel, error) {
 func (m *fileModel) asSnapshot() snapshot {
 	s := snapshot{seed: m.meta["seed"], last: m.meta["lastSeed"], pass: m.meta["seedPassphrase"], xprvs: m.xprvs}
 	for i, e := range m.entries {
-		raw, err := hex.DecodeString(e.Secret)
-		if err != nil || len(raw) != 32 {
+		raw, ok := rawSecret(e.Secret) // coin.go
+		if !ok || len(raw) != 32 {
 			continue
 		}
 		var fe wfix.FlatEntry
@@ -113,13 +113,63 @@ func (m *fileModel) asSnapshot() snapshot {
 	return s
 }
 
-// secretsByAddress: address -> lower-case hex secret ("" when the file holds none)
+// secretsByAddress: address -> lower-case hex of the raw secret key bytes ("" when the file holds
+// none; the text itself when the harness cannot read it as a key)
 func (m *fileModel) secretsByAddress() map[string]string {
 	out := map[string]string{}
 	for _, e := range m.entries {
-		out[e.Address] = strings.ToLower(e.Secret)
+		if raw, ok := rawSecret(e.Secret); ok {
+			out[e.Address] = hex.EncodeToString(raw)
+		} else {
+			out[e.Address] = strings.ToLower(e.Secret)
+		}
 	}
 	return out
+}
+
+// coin is the file's coin type as the harness reads it ("" if the field is absent or unknown)
+func (m *fileModel) coin() string { return normCoin(m.meta["coin"]) }
+
+func normCoin(c string) string {
+	switch strings.ToLower(c) {
+	case "skycoin", "sky":
+		return string(wallet.CoinTypeSkycoin)
+	case "bitcoin", "btc":
+		return string(wallet.CoinTypeBitcoin)
+	}
+	return ""
+}
+
+// coinAddresses rewrites the address of every entry of a collection wallet file to the address
+// of the entry's public key under the file's coin type: the file a node has to be able to read.
+// (collection.NewWallet writes skycoin addresses whatever the coin type - see the report on
+// fixes-proposed/collection-coin-address.diff; with that repaired this is the identity.)
+func coinAddresses(data []byte, coin wallet.CoinType) ([]byte, bool, error) {
+	var doc map[string]interface{}
+	dec := json.NewDecoder(bytes.NewReader(data))
+	dec.UseNumber()
+	if err := dec.Decode(&doc); err != nil {
+		return nil, false, err
+	}
+	changed := false
+	es, _ := doc["entries"].([]interface{})
+	for _, x := range es {
+		e, ok := x.(map[string]interface{})
+		if !ok {
+			continue
+		}
+		ph, _ := e["public_key"].(string)
+		pk, err := cipher.PubKeyFromHex(ph)
+		if err != nil {
+			return nil, false, err
+		}
+		if a := wfix.AddressOf(coin, pk).String(); e["address"] != a {
+			e["address"] = a
+			changed = true
+		}
+	}
+	out, err := json.MarshalIndent(doc, "", "    ")
+	return out, changed, err
 }
 
 func walletSecretsByAddress(w wallet.Wallet) (map[string]string, error) {
@@ -220,18 +270,18 @@ func fixtureFiles() []baseFile {
 	return out
 }
 
-func generatedFile(rng *rand.Rand, kind, id string) (baseFile, error) {
+func generatedFile(rng *rand.Rand, kind string, coin wallet.CoinType, id string) (baseFile, error) {
 	var w wallet.Wallet
 	var err error
 	switch kind {
 	case wallet.WalletTypeDeterministic:
-		w, err = wallet.NewWallet(id+".wlt", "label-"+id, wfix.SeedString(rng), wallet.Options{Type: kind, GenerateN: uint64(1 + rng.Intn(5))})
+		w, err = wallet.NewWallet(id+".wlt", "label-"+id, wfix.SeedString(rng), wallet.Options{Type: kind, Coin: coin, GenerateN: uint64(1 + rng.Intn(5))})
 	case wallet.WalletTypeBip44:
 		pass := ""
 		if rng.Intn(2) == 0 {
 			pass = "Phrase-" + wfix.RandToken(rng, 6+rng.Intn(8))
 		}
-		w, err = wallet.NewWallet(id+".wlt", "label-"+id, wfix.Mnemonic(rng), wallet.Options{Type: kind, SeedPassphrase: pass, GenerateN: uint64(1 + rng.Intn(3))})
+		w, err = wallet.NewWallet(id+".wlt", "label-"+id, wfix.Mnemonic(rng), wallet.Options{Type: kind, Coin: coin, SeedPassphrase: pass, GenerateN: uint64(1 + rng.Intn(3))})
 		if err == nil && rng.Intn(2) == 0 {
 			_, err = w.GenerateAddresses(wallet.OptionGenerateN(uint64(1+rng.Intn(2))), wallet.OptionChange())
 		}
@@ -245,12 +295,18 @@ func generatedFile(rng *rand.Rand, kind, id string) (baseFile, error) {
 		for j := range keys {
 			keys[j] = wfix.SecKey(rng)
 		}
-		w, err = wallet.NewWallet(id+".wlt", "label-"+id, "", wallet.Options{Type: kind, CollectionPrivateKeys: keys})
+		w, err = wallet.NewWallet(id+".wlt", "label-"+id, "", wallet.Options{Type: kind, Coin: coin, CollectionPrivateKeys: keys})
 	}
 	if err != nil {
 		return baseFile{}, err
 	}
 	b, err := w.Serialize()
+	if err == nil && kind == wallet.WalletTypeCollection {
+		var changed bool
+		if b, changed, err = coinAddresses(b, coin); changed {
+			return baseFile{"generated+coin-addresses", b, kind}, err
+		}
+	}
 	return baseFile{"generated", b, kind}, err
 }
 
@@ -324,6 +380,9 @@ func mutate(rng *rand.Rand, data []byte, noCryptoType bool) ([]byte, []string, e
 			if c, _ := meta["coin"].(string); c == "skycoin" {
 				meta["coin"] = "sky"
 				ops = append(ops, "coin.alias")
+			} else if c == "bitcoin" {
+				meta["coin"] = "btc"
+				ops = append(ops, "coin.alias")
 			}
 		case 2:
 			meta["encrypted"] = "false"
@@ -363,7 +422,8 @@ func legacyCase(r *vf.Run, i int, noCryptoType bool, fixtures []baseFile) {
 		base = cand[rng.Intn(len(cand))]
 	} else {
 		var err error
-		base, err = generatedFile(rng, kind, id)
+		// every other generated file of a kind is a bitcoin wallet (coin.go)
+		base, err = generatedFile(rng, kind, coinTypes[(i/3)%2], id)
 		if err != nil {
 			r.Violation("harness-create-failed", map[string]string{"monitor": "L", "wallet": kind, "error": err.Error()}, nil)
 			return
@@ -383,8 +443,9 @@ func legacyCase(r *vf.Run, i int, noCryptoType bool, fixtures []baseFile) {
 	pw := []byte("Pw-" + wfix.RandToken(rng, 5+rng.Intn(10)))
 	trace := []string{"base " + base.name, "mutations " + strings.Join(ops, ",")}
 	logf := func(f string, a ...interface{}) { trace = append(trace, fmt.Sprintf(f, a...)) }
+	var coinOf func() string
 	attrs := func(extra ...string) map[string]string {
-		m := map[string]string{"monitor": "L", "wallet": kind, "file_crypto_type": fileCT, "cipher": fileCT, "source": strings.SplitN(base.name, "/", 2)[0]}
+		m := map[string]string{"monitor": "L", "wallet": kind, "coin": coinOf(), "file_crypto_type": fileCT, "cipher": fileCT, "source": strings.SplitN(base.name, "/", 2)[0]}
 		if fileCT == "" {
 			// documented behaviour: a wallet without a crypto type is locked with the default one
 			m["file_crypto_type"] = "none"
@@ -396,6 +457,16 @@ func legacyCase(r *vf.Run, i int, noCryptoType bool, fixtures []baseFile) {
 		return m
 	}
 	var w wallet.Wallet
+	coinOf = func() string {
+		c := model.coin()
+		if c == "" && w != nil {
+			c = normCoin(string(w.Coin()))
+		}
+		if c == "" {
+			c = "none"
+		}
+		return c
+	}
 	witness := func(extra map[string]interface{}) map[string]interface{} {
 		m := map[string]interface{}{"case": id, "trace": trace, "password": string(pw), "wallet_file": string(data)}
 		if w != nil {
@@ -423,6 +494,7 @@ func legacyCase(r *vf.Run, i int, noCryptoType bool, fixtures []baseFile) {
 	}
 	r.Eval(1)
 	r.Count("L.cases", 1)
+	r.Count("L.files."+kind+".coin."+coinOf(), 1)
 	for _, op := range ops {
 		if !strings.HasPrefix(op, "cryptoType.s") {
 			r.Count("L.mutation."+op, 1)
@@ -436,6 +508,7 @@ func legacyCase(r *vf.Run, i int, noCryptoType bool, fixtures []baseFile) {
 		// not a wallet for this node; nothing to lock. (How the loader refuses is not this property's matter.)
 		w = nil
 		r.Count("L.load.refused", 1)
+		r.Count("L.load.refused."+kind+".coin."+coinOf(), 1)
 		if panicked {
 			r.Count("L.load.refused.by_panic", 1)
 			_ = msg
@@ -454,8 +527,11 @@ func legacyCase(r *vf.Run, i int, noCryptoType bool, fixtures []baseFile) {
 		return
 	}
 	r.Count("L.load.accepted", 1)
-	if base.name == "generated" {
+	if strings.HasPrefix(base.name, "generated") {
 		r.Count("L.source.generated", 1)
+		if base.name != "generated" {
+			r.Count("L.source.generated.collection_addresses_rewritten_to_coin", 1)
+		}
 	} else {
 		r.Count("L.source.repository_fixture", 1)
 	}
@@ -478,7 +554,7 @@ func legacyCase(r *vf.Run, i int, noCryptoType bool, fixtures []baseFile) {
 		return
 	}
 	for _, n := range corpus {
-		if !strings.Contains(n.what, "/") || n.what == "secretKey/hex" {
+		if !strings.Contains(n.what, "/") || n.what == secretTextEncoding(wallet.CoinType(model.coin())) {
 			if bytes.Contains(data, n.b) {
 				r.Count("L.corpus.present_in_file", 1)
 			}
@@ -659,11 +735,12 @@ func legacyCase(r *vf.Run, i int, noCryptoType bool, fixtures []baseFile) {
 		return
 	}
 	r.Count("L.roundtrip."+kind, 1)
+	r.Count("L.roundtrip."+kind+".coin."+coinOf(), 1)
 	if noCryptoType {
 		r.Count("L.no_crypto_type.roundtrip."+kind, 1)
 	}
 	r.Distinct(fmt.Sprintf("L/%s/%s/%x", kind, strings.Join(ops, ","), sha256.Sum256(data)))
-	r.Sample(map[string]interface{}{"monitor": "L", "wallet": kind, "base": base.name, "mutations": ops, "file_crypto_type": fileCT,
+	r.Sample(map[string]interface{}{"monitor": "L", "wallet": kind, "base": base.name, "mutations": ops, "coin": coinOf(), "file_crypto_type": fileCT,
 		"entries": len(model.entries), "needles": len(corpus), "other_passwords_tried": len(wp) * len(targets)})
 	if noCryptoType || (slowish && r.Quick()) {
 		return
@@ -695,6 +772,7 @@ func legacyCase(r *vf.Run, i int, noCryptoType bool, fixtures []baseFile) {
 		return
 	}
 	r.Count("L.relock.restored", 1)
+	r.Count("L.relock.restored.coin."+coinOf(), 1)
 }
 
 // monitorL runs the no-crypto-type class a few times (in the background: those cases spend
@@ -732,6 +810,7 @@ func floorsL(r *vf.Run, fl func(k string, qv, tv int64)) {
 	for _, k := range lockableKinds {
 		fl("L.roundtrip."+k, 10, 200)
 		fl("L.no_crypto_type.roundtrip."+k, 1, 3)
+		fl("L.roundtrip."+k+".coin.bitcoin", 2, 80)
 	}
 	fl("L.locked_file.reloaded", 60, 1000)
 	fl("L.unlock.identical.in-memory", 55, 900)
@@ -740,4 +819,5 @@ func floorsL(r *vf.Run, fl func(k string, qv, tv int64)) {
 	fl("L.corpus.needles_searched", 1000, 20000)
 	fl("L.relock.previous_password_rejected", 40, 700)
 	fl("L.relock.restored", 40, 700)
+	fl("L.relock.restored.coin.bitcoin", 8, 200)
 }
